@@ -281,6 +281,7 @@ def check_C04(tier, seed):
 def run_calls(res, tier, seed, wd):
     insts = universe.semantic_universe(tier, seed + 700)
     obs = observe(insts, wd, "calls", seed)
+    run_calls.last_insts, run_calls.last_obs = insts, obs
     ex = executable(insts, obs)
     ji = [i for i, o in ex]; jo = [{"id": i["id"], "calls": o["calls"]["calls"]} for i, o in ex]
     verdicts = judge(res, "JudgeCalls", ji, jo, wd, "calls")
@@ -290,6 +291,13 @@ def check_C21(tier, seed):
     res = Result("C21", tier, seed, "model_checking")
     wd = workdir("C21")
     ex, verdicts = run_calls(res, tier, seed, wd)
+    # the harness's graph adapter refuses (panics with "GraphAdapter: ...") to resolve a property its vertex's type does not have: that is the engine
+    # handing it a vertex that is not an instance of the named type - the contract violated, seen from the adapter's side
+    for inst, o in zip(run_calls.last_insts, run_calls.last_obs):
+        e = o.get("exec", {})
+        if o["compile"]["t"] == "ok" and e.get("t") == "panic" and str(e.get("err", "")).startswith("GraphAdapter:"):
+            res.violation(f"adapter called outside the contract: {e['err'][:160]} (the engine asked for a property of a vertex that is not an instance of the named type) for query {inst['text']!r}",
+                          text="contract " + e["err"], tags=props.inst_tags(inst), replay=props.replay_case(inst, o))
     ncalls = 0; kinds = {}; seen = set(); nontrivial = 0
     for inst, o in ex:
         v = verdicts[inst["id"]]
